@@ -141,6 +141,52 @@ def run_tlc(module, cfg, out, workers=8, env=None, timeout=1800, deque=False, ex
     return st
 
 
+def run_tlc_trace(module, cfg, trace, out, workers=2, chunk=20000, par=6, boundary=None, env=None, timeout=6000, deque=False):
+    """Trace validation of a (possibly large) ndjson trace: the trace is cut into chunks of about `chunk` lines
+    (only at lines for which boundary(line) holds, when given: e.g. the first event of a history), one TLC run per
+    chunk, up to `par` runs at a time; the outputs are concatenated into `out`.  TLC's Json module deserialises
+    the whole file into memory before the first state, so one run over a 250 MB trace does not finish."""
+    import concurrent.futures
+    parts, cur, n = [], None, 0
+    base = out + ".chunks"
+    subprocess.run(["rm", "-rf", base])
+    os.makedirs(base)
+    with open(trace) as f:
+        for line in f:
+            if cur is None or (n >= chunk and (boundary is None or boundary(line))):
+                if cur:
+                    cur.close()
+                parts.append(os.path.join(base, "part%04d.ndjson" % len(parts)))
+                cur = open(parts[-1], "w")
+                n = 0
+            cur.write(line)
+            n += 1
+    if cur:
+        cur.close()
+
+    def one(pth):
+        e = dict(env or {})
+        e["TRACE"] = pth
+        return run_tlc(module, cfg, pth + ".out", workers=workers, env=e, timeout=timeout, deque=deque)
+
+    if len(parts) <= 1:
+        stats = [one(p) for p in parts]
+    else:
+        with concurrent.futures.ThreadPoolExecutor(max_workers=par) as ex:
+            stats = list(ex.map(one, parts))
+    with open(out, "w") as o:
+        for pth in parts:
+            with open(pth + ".out") as f:
+                for line in f:
+                    o.write(line)
+    bad = [s for s in stats if not s["ok"]]
+    st = {"ok": not bad, "error": bad[0]["error"] if bad else None,
+          "distinct": sum(s["distinct"] for s in stats), "generated": sum(s["generated"] for s in stats),
+          "chunks": len(parts), "wall_s": round(sum(s["wall_s"] for s in stats), 1), "rc": max([s["rc"] for s in stats] or [0])}
+    subprocess.run(["rm", "-rf", base])
+    return st
+
+
 def extract_cases(tlc_out, dest, tag="REPLAY", limit=None, start_id=1):
     n = 0
     with open(dest, "w") as o:
@@ -355,8 +401,8 @@ def simple_campaign(name, tier, seed, mc_module, mc_cfg_text, harness_args, trac
             raise ToolError("harness failed: " + out[-2000:])
         hstat = json.loads(out.strip().splitlines()[-1])
         tv_out = st.path("tv.out")
-        tv = run_tlc(trace_module, os.path.join(SPEC, trace_module + ".cfg"), tv_out, workers=tv_workers,
-                     env={"TRACE": trace}, timeout=6000)
+        tv = run_tlc_trace(trace_module, os.path.join(SPEC, trace_module + ".cfg"), trace, tv_out,
+                           workers=max(1, tv_workers // 2), chunk=40000, par=4, timeout=6000)
         if not tv["ok"]:
             raise ToolError("%s did not complete: %s" % (trace_module, tv["error"]))
         seen, recs = set(), []
